@@ -143,3 +143,994 @@ theorem neutral_run (t : Tx) (es : List Event) (h : ∀ e ∈ es, Neutral e) : t
       split <;> simp
 
 end QsmtpModel.Session
+
+-- ---------------------------------------------------------------------------------------------
+-- refinement of the transaction specification by the command loop
+namespace QsmtpModel.Session
+open QsmtpModel Spec
+
+def SameTx (s s' : Sess) : Prop := s'.comstate = s.comstate ∧ s'.mailfrom = s.mailfrom ∧ s'.rcpts = s.rcpts
+  ∧ s'.goodrcpt = s.goodrcpt ∧ s'.rcptcount = s.rcptcount
+
+theorem sameTx_inv (s s' : Sess) (h : SameTx s s') (hI : Inv s) : Inv s' := by
+  obtain ⟨h1, h2, h3, h4, h5⟩ := h
+  constructor
+  · rw [h1]; exact hI.cs
+  · intro hn; rw [h2, h3]; exact hI.idle (by simpa [inTx, h1] using hn)
+  · intro hc; rw [h3]; exact hI.mailOnly (by rw [← h1]; exact hc)
+  · rw [h4, h3]; exact hI.good
+  · rw [h5, h3]; exact hI.cnt
+  · intro hm; rw [h3]; exact hI.bounceTail (by rw [← h2]; exact hm)
+
+theorem sameTx_rel (s s' : Sess) (t : Tx) (h : SameTx s s') (hR : Rel s t) : Rel s' t := by
+  obtain ⟨h1, h2, h3, _, _⟩ := h
+  obtain ⟨r1, r2, r3⟩ := hR
+  refine ⟨by rw [r1, h1], ?_, by rw [r3]; simp [okAddrs, h3]⟩
+  rw [r2]; simp [inTx, h1, h2]
+
+theorem handleError_spec (rc : Rc) (s : Sess) (hI : Inv s) :
+    Inv (handleError rc s).2 ∧ ((handleError rc s).2.closed = true
+        ∨ (SameTx s (handleError rc s).2 ∧ (handleError rc s).2.closed = s.closed))
+      ∧ ((handleError rc s).1 = [550] ∨ (handleError rc s).1 = (errReply rc).toList) := by
+  unfold handleError
+  split
+  · refine ⟨?_, Or.inl rfl, Or.inl rfl⟩
+    have := freedata_inv { s with badcmds := s.badcmds + 1 } (sameTx_inv s _ ⟨rfl, rfl, rfl, rfl, rfl⟩ hI)
+    exact sameTx_inv (freedata { s with badcmds := s.badcmds + 1 }) _ ⟨rfl, rfl, rfl, rfl, rfl⟩ this
+  · refine ⟨?_, Or.inr ?_, Or.inr rfl⟩
+    · apply sameTx_inv s _ _ hI
+      split <;> exact ⟨rfl, rfl, rfl, rfl, rfl⟩
+    · split <;> exact ⟨⟨rfl, rfl, rfl, rfl, rfl⟩, rfl⟩
+
+end QsmtpModel.Session
+
+namespace QsmtpModel.Session
+open QsmtpModel Spec
+
+/-- the goal of one step: invariant kept and the observation is allowed by the specification -/
+def StepGoal (t : Tx) (es : List Event) (s' : Sess) : Prop :=
+  (s'.closed = true ∨ Inv s') ∧ ∃ t' ∈ txRun [t] es, (s'.closed = true ∨ Rel s' t')
+
+theorem goal_neutral (s s' : Sess) (t : Tx) (es : List Event) (hI : Inv s')
+    (hR : s.closed = true ∨ Rel s t) (hs : s'.closed = true ∨ (SameTx s s' ∧ s'.closed = s.closed))
+    (hn : ∀ e ∈ es, Neutral e) : StepGoal t es s' := by
+  refine ⟨Or.inr hI, t, neutral_run t es hn, ?_⟩
+  rcases hs with hs | ⟨hs, hc⟩
+  · exact Or.inl hs
+  · rcases hR with hR | hR
+    · exact Or.inl (by rw [hc]; exact hR)
+    · exact Or.inr (sameTx_rel s s' t hs hR)
+
+theorem errOut_goal (rc : Rc) (s : Sess) (t : Tx) (es : List Event) (hI : Inv s)
+    (hR : s.closed = true ∨ Rel s t) (hn : ∀ e ∈ es, Neutral e) : StepGoal t es (errOut rc s).2 := by
+  obtain ⟨h1, h2, _⟩ := handleError_spec rc s hI
+  unfold errOut
+  exact goal_neutral s _ t es h1 hR h2 hn
+
+end QsmtpModel.Session
+
+namespace QsmtpModel.Session
+open QsmtpModel Spec
+
+/-- reply lists that can never be mistaken for an acceptance -/
+def ErrReplies (l : List Nat) : Prop :=
+  l = [] ∨ l = [550] ∨ l = [500] ∨ l = [501] ∨ l = [503] ∨ l = [552] ∨ l = [451] ∨ l = [452]
+
+theorem events_neutral_of_err (f : Gen.Func) (v : Verdicts) (o : Out) (h : ErrReplies o.replies) :
+    ∀ e ∈ eventsFor f v o, Neutral e := by
+  intro e he
+  unfold eventsFor at he
+  rcases h with h | h | h | h | h | h | h | h <;> cases f <;> simp [h] at he <;> subst he <;> simp [Neutral]
+
+theorem errReplies_dispatch (rc : Rc) (s : Sess) (h : rc = .einval ∨ rc = .e2big ∨ rc = .badseq) (hI : Inv s) :
+    ErrReplies (errOut rc s).1.replies := by
+  obtain ⟨_, _, h3⟩ := handleError_spec rc s hI
+  unfold errOut
+  simp only
+  rcases h3 with h3 | h3
+  · rw [h3]; simp [ErrReplies]
+  · rw [h3]; rcases h with rfl | rfl | rfl <;> simp [errReply, ErrReplies]
+
+end QsmtpModel.Session
+
+namespace QsmtpModel.Session
+open QsmtpModel Spec
+
+theorem closed_goal (s : Sess) (t : Tx) (es : List Event) (hc : s.closed = true)
+    (hn : ∀ e ∈ es, Neutral e) : StepGoal t es s :=
+  ⟨Or.inl hc, t, neutral_run t es hn, Or.inl hc⟩
+
+theorem events_neutral_nil (f : Gen.Func) (v : Verdicts) : ∀ e ∈ eventsFor f v { replies := [] }, Neutral e :=
+  events_neutral_of_err f v _ (Or.inl rfl)
+
+/-- Rel for states outside a transaction -/
+theorem rel_idle (s : Sess) (g : Bool) (h1 : ¬ inTx s) (h2 : s.rcpts = []) (hg : g = decide (s.comstate ≠ 1)) :
+    Rel s { greeted := g, sender := none, rcpts := [] } := by
+  refine ⟨hg, by simp [h1], by simp [okAddrs, h2]⟩
+
+theorem rel_not_closed (s : Sess) (t : Tx) (hR : s.closed = true ∨ Rel s t) (hc : ¬ s.closed = true) : Rel s t := by
+  rcases hR with h | h
+  · exact absurd h hc
+  · exact h
+
+end QsmtpModel.Session
+
+namespace QsmtpModel.Session
+open QsmtpModel Spec
+
+theorem handleError_spec' (rc : Rc) (s : Sess) :
+    (handleError rc s).1 = [550] ∨ (handleError rc s).1 = (errReply rc).toList := by
+  unfold handleError
+  split
+  · left; rfl
+  · right; rfl
+
+theorem finish_err_state (rowState : Int) (i : Nat) (r : FuncRes) (hrc : r.rc ≠ .ok) :
+    (finishStep rowState i r).2 = (handleError r.rc r.s).2
+      ∧ ((finishStep rowState i r).1 = { replies := r.replies ++ [550] }
+         ∨ (finishStep rowState i r).1 = { replies := r.replies ++ (errReply r.rc).toList }) := by
+  unfold finishStep
+  rw [if_neg hrc]
+  refine ⟨rfl, ?_⟩
+  rcases (handleError_spec' r.rc r.s) with h | h
+  · left; simp [h]
+  · right; simp [h]
+
+theorem finish_err_goal (rowState : Int) (i : Nat) (r : FuncRes) (t t' : Tx) (es : List Event)
+    (hrc : r.rc ≠ .ok) (hI : Inv r.s) (hR : r.s.closed = true ∨ Rel r.s t') (ht : t' ∈ txRun [t] es) :
+    StepGoal t es (finishStep rowState i r).2 := by
+  rw [(finish_err_state rowState i r hrc).1]
+  obtain ⟨h1, h2, _⟩ := handleError_spec r.rc r.s hI
+  refine ⟨Or.inr h1, t', ht, ?_⟩
+  rcases h2 with h2 | ⟨h2, hc⟩
+  · exact Or.inl h2
+  · rcases hR with hR | hR
+    · exact Or.inl (by rw [hc]; exact hR)
+    · exact Or.inr (sameTx_rel _ _ t' h2 hR)
+
+end QsmtpModel.Session
+
+namespace QsmtpModel.Session
+open QsmtpModel Spec
+
+theorem commands_get (j : Nat) (row : Gen.Row) (h : Gen.commands[j]? = some row) :
+    (j = 0 ∧ row = ⟨[78, 79, 79, 80], 0xffff, .noop, -1, 0⟩) ∨
+    (j = 1 ∧ row = ⟨[81, 85, 73, 84], 0xfffd, .quit, 0, 0⟩) ∨
+    (j = 2 ∧ row = ⟨[82, 83, 69, 84], 0xfffd, .rset, 1, 0⟩) ∨
+    (j = 3 ∧ row = ⟨[72, 69, 76, 79], 0xfffd, .helo, 0, 5⟩) ∨
+    (j = 4 ∧ row = ⟨[69, 72, 76, 79], 0xfffd, .ehlo, 0, 5⟩) ∨
+    (j = 5 ∧ row = ⟨[77, 65, 73, 76, 32, 70, 82, 79, 77, 58], 0x18, .mail, 0, 3⟩) ∨
+    (j = 6 ∧ row = ⟨[82, 67, 80, 84, 32, 84, 79, 58], 0x60, .rcpt, 0, 1⟩) ∨
+    (j = 7 ∧ row = ⟨[68, 65, 84, 65], 0x40, .data, 16, 0⟩) ∨
+    (j = 8 ∧ row = ⟨[83, 84, 65, 82, 84, 84, 76, 83], 0x10, .starttls, 1, 0⟩) ∨
+    (j = 9 ∧ row = ⟨[65, 85, 84, 72], 0x10, .auth, -1, 5⟩) ∨
+    (j = 10 ∧ row = ⟨[86, 82, 70, 89], 0xffff, .vrfy, -1, 5⟩) ∨
+    (j = 11 ∧ row = ⟨[80, 79, 83, 84], 0xffff, .post, -1, 1⟩) := by
+  match j, h with
+  | 0, h => simp [Gen.commands] at h; simp [← h]
+  | 1, h => simp [Gen.commands] at h; simp [← h]
+  | 2, h => simp [Gen.commands] at h; simp [← h]
+  | 3, h => simp [Gen.commands] at h; simp [← h]
+  | 4, h => simp [Gen.commands] at h; simp [← h]
+  | 5, h => simp [Gen.commands] at h; simp [← h]
+  | 6, h => simp [Gen.commands] at h; simp [← h]
+  | 7, h => simp [Gen.commands] at h; simp [← h]
+  | 8, h => simp [Gen.commands] at h; simp [← h]
+  | 9, h => simp [Gen.commands] at h; simp [← h]
+  | 10, h => simp [Gen.commands] at h; simp [← h]
+  | 11, h => simp [Gen.commands] at h; simp [← h]
+  | n + 12, h => simp [Gen.commands] at h
+
+end QsmtpModel.Session
+
+namespace QsmtpModel.Session
+open QsmtpModel Spec
+
+/-- success path of finishStep, spelled out -/
+theorem finish_ok (rowState : Int) (i : Nat) (r : FuncRes) (h : r.rc = .ok) :
+    finishStep rowState i r =
+      ({ replies := r.replies, handoff := r.handoff },
+       { r.s with comstate := newState rowState i r, badcmds := 0 }) := by
+  unfold finishStep; rw [if_pos h]
+
+/-- a command that succeeded without touching the transaction and without changing the state -/
+theorem goal_keep (s s1 : Sess) (t : Tx) (es : List Event) (hI : Inv s) (hR : Rel s t)
+    (hs : SameTx s s1) (hn : ∀ e ∈ es, Neutral e) :
+    StepGoal t es { s1 with comstate := s1.comstate, badcmds := 0 } := by
+  have h2 : SameTx s { s1 with comstate := s1.comstate, badcmds := 0 } := hs
+  exact ⟨Or.inr (sameTx_inv _ _ h2 hI), t, neutral_run t es hn, Or.inr (sameTx_rel _ _ t h2 hR)⟩
+
+end QsmtpModel.Session
+
+namespace QsmtpModel.Session
+open QsmtpModel Spec
+
+theorem newState_neg (i : Nat) (r : FuncRes) (h : r.stateOverride = none) : newState (-1) i r = r.s.comstate := by
+  simp [newState, h]
+
+theorem goal_noop (env : Env) (v : Verdicts) (s : Sess) (t : Tx) (l : List Byte) (i : Nat) (hI : Inv s) (hR : Rel s t)
+    (f : Gen.Func) (hf : f = .noop ∨ f = .vrfy) :
+    StepGoal t (eventsFor f v (finishStep (-1) i (runFunc env v f s l)).1)
+      (finishStep (-1) i (runFunc env v f s l)).2 := by
+  rcases hf with rfl | rfl
+  all_goals
+    simp only [runFunc]
+    rw [finish_ok _ _ _ rfl]
+    simp only [newState, gt_iff_lt]
+    exact goal_keep s s t _ hI hR ⟨rfl, rfl, rfl, rfl, rfl⟩ (by simp [eventsFor, Neutral])
+
+theorem goal_quit (env : Env) (v : Verdicts) (s : Sess) (t : Tx) (l : List Byte) (i : Nat) :
+    StepGoal t (eventsFor .quit v (finishStep 0 i (runFunc env v .quit s l)).1)
+      (finishStep 0 i (runFunc env v .quit s l)).2 := by
+  simp only [runFunc]
+  rw [finish_ok _ _ _ rfl]
+  exact ⟨Or.inl rfl, t, neutral_run t _ (by simp [eventsFor, Neutral]), Or.inl rfl⟩
+
+end QsmtpModel.Session
+
+namespace QsmtpModel.Session
+open QsmtpModel Spec
+
+theorem other_run (t : Tx) : t ∈ txRun [t] [.other] := neutral_run t _ (by simp [Neutral])
+
+theorem goal_same (s s' : Sess) (t : Tx) (es : List Event) (hI : Inv s) (hR : Rel s t)
+    (hs : SameTx s s') (hn : ∀ e ∈ es, Neutral e) : StepGoal t es s' :=
+  ⟨Or.inr (sameTx_inv _ _ hs hI), t, neutral_run t es hn, Or.inr (sameTx_rel _ _ t hs hR)⟩
+
+theorem goal_post (env : Env) (v : Verdicts) (s : Sess) (t : Tx) (l : List Byte) (i : Nat) (hI : Inv s) (hR : Rel s t) :
+    StepGoal t (eventsFor .post v (finishStep (-1) i (runFunc env v .post s l)).1)
+      (finishStep (-1) i (runFunc env v .post s l)).2 := by
+  simp only [runFunc]
+  split
+  · rw [finish_ok _ _ _ rfl]
+    exact ⟨Or.inl rfl, t, neutral_run t _ (by simp [eventsFor, Neutral]), Or.inl rfl⟩
+  · exact finish_err_goal _ _ _ t t _ (by simp) hI (Or.inr hR) (by simp only [eventsFor]; exact other_run t)
+
+theorem goal_auth (env : Env) (v : Verdicts) (s : Sess) (t : Tx) (l : List Byte) (i : Nat) (hI : Inv s) (hR : Rel s t) :
+    StepGoal t (eventsFor .auth v (finishStep (-1) i (runFunc env v .auth s l)).1)
+      (finishStep (-1) i (runFunc env v .auth s l)).2 := by
+  simp only [runFunc, smtpAuth]
+  split
+  · rw [finish_ok _ _ _ rfl]
+    refine goal_same s _ t _ hI hR ?_ ?_ <;> simp [SameTx, newState, eventsFor, Neutral]
+  · rename_i code rc _
+    by_cases hrc : rc = .ok
+    · subst hrc
+      rw [finish_ok _ _ _ rfl]
+      refine goal_same s _ t _ hI hR ?_ ?_ <;> simp [SameTx, newState, eventsFor, Neutral]
+    · exact finish_err_goal _ _ _ t t _ hrc hI (Or.inr hR) (by simp only [eventsFor]; exact other_run t)
+
+end QsmtpModel.Session
+
+namespace QsmtpModel.Session
+open QsmtpModel Spec
+
+theorem inv_idle (s : Sess) (hcs : s.comstate = 1 ∨ s.comstate = 8 ∨ s.comstate = 0x10)
+    (hm : s.mailfrom = []) (hr : s.rcpts = []) (hg : s.goodrcpt = 0) (hc : s.rcptcount = 0) : Inv s := by
+  constructor
+  · omega
+  · intro _; exact ⟨hm, hr⟩
+  · intro _; exact hr
+  · simp [hg, hr]
+  · simp [hc, hr]
+  · intro _; simp [hr]
+
+theorem not_inTx_of (s : Sess) (hcs : s.comstate = 1 ∨ s.comstate = 8 ∨ s.comstate = 0x10) : ¬ inTx s := by
+  simp only [inTx]; omega
+
+theorem mk_goal (t t' : Tx) (es : List Event) (s' : Sess) (hI : Inv s') (ht : t' ∈ txRun [t] es)
+    (hR : Rel s' t') : StepGoal t es s' := ⟨Or.inr hI, t', ht, Or.inr hR⟩
+
+theorem afterHelo_cases (s : Sess) : afterHelo s = 8 ∨ afterHelo s = 0x10 := by
+  unfold afterHelo; cases s.esmtp <;> simp
+
+theorem goal_rset (env : Env) (v : Verdicts) (s : Sess) (t : Tx) (l : List Byte) (hI : Inv s) (hR : Rel s t) :
+    StepGoal t (eventsFor .rset v (finishStep 1 2 (runFunc env v .rset s l)).1)
+      (finishStep 1 2 (runFunc env v .rset s l)).2 := by
+  simp only [runFunc, smtpRset]
+  obtain ⟨r1, r2, r3⟩ := hR
+  split
+  · rename_i hge
+    rw [finish_ok _ _ _ rfl]
+    have hah := afterHelo_cases s
+    have hns : newState 1 2 { replies := [250], rc := .ok, s := freedata s, stateOverride := some (afterHelo s) }
+        = afterHelo s := by
+      simp only [newState]; rcases hah with h | h <;> simp [h]
+    rw [hns]
+    apply mk_goal t { t with sender := none, rcpts := [] }
+    · exact inv_idle _ (by simp; omega) rfl rfl rfl rfl
+    · simp [eventsFor, txRun, txStep]
+    · refine rel_idle _ t.greeted ?_ ?_ ?_
+      · exact not_inTx_of _ (by simp; omega)
+      · rfl
+      · simp only [r1]; have := hI.cs; rcases hah with h | h <;> simp [h] <;> omega
+  · rename_i hlt
+    rw [finish_ok _ _ _ rfl]
+    have hc1 : s.comstate = 1 := by have := hI.cs; omega
+    have hnt : ¬ inTx s := not_inTx_of s (Or.inl hc1)
+    obtain ⟨hm, hr⟩ := hI.idle hnt
+    apply mk_goal t { t with sender := none, rcpts := [] }
+    · exact inv_idle _ (by simp [newState]) hm hr (by simp [hI.good, hr]) (by simp [hI.cnt, hr])
+    · simp [eventsFor, txRun, txStep]
+    · refine rel_idle _ t.greeted ?_ ?_ ?_
+      · exact not_inTx_of _ (by simp [newState])
+      · exact hr
+      · simp [r1, hc1, newState]
+
+end QsmtpModel.Session
+
+namespace QsmtpModel.Session
+open QsmtpModel Spec
+
+theorem freedata_cs_one (s : Sess) (h : Inv s) : (freedata s).comstate = 1 ↔ s.comstate = 1 := by
+  have := h.cs
+  simp only [freedata]
+  rcases this with h | h | h | h | h <;> simp [h] <;> cases s.esmtp <;> simp
+
+theorem err_replies_ne (r : FuncRes) (rowState : Int) (i : Nat) (hrc : r.rc ≠ .ok) (bad : List Nat)
+    (h1 : r.replies ++ [550] ≠ bad) (h2 : r.replies ++ (errReply r.rc).toList ≠ bad) :
+    (finishStep rowState i r).1.replies ≠ bad := by
+  rcases (finish_err_state rowState i r hrc).2 with h | h <;> rw [h] <;> assumption
+
+theorem goal_helo (env : Env) (v : Verdicts) (s : Sess) (t : Tx) (l : List Byte) (hI : Inv s) (hR : Rel s t) :
+    StepGoal t (eventsFor .helo v (finishStep 0 3 (runFunc env v .helo s l)).1)
+      (finishStep 0 3 (runFunc env v .helo s l)).2 := by
+  simp only [runFunc, smtpHelo]
+  obtain ⟨r1, r2, r3⟩ := hR
+  have hfi := freedata_inv s hI
+  have hI1 : Inv { freedata s with esmtp := false } := sameTx_inv (freedata s) _ ⟨rfl, rfl, rfl, rfl, rfl⟩ hfi
+  have hnt : ¬ inTx { freedata s with esmtp := false } := freedata_not_inTx s hI
+  have hg : t.greeted = decide ((freedata s).comstate ≠ 1) := by
+    rw [r1]; simp [freedata_cs_one s hI]
+  split
+  · -- syntax error: the transaction is gone, the state is the one after the previous greeting
+    have hne := err_replies_ne { replies := [], rc := .einval, s := { freedata s with esmtp := false } } 0 3
+      (by simp) [250] (by simp) (by simp [errReply])
+    apply finish_err_goal _ _ _ t { t with sender := none, rcpts := [] } _ (by simp) hI1
+    · exact Or.inr (rel_idle _ t.greeted hnt rfl hg)
+    · simp only [eventsFor, if_neg hne]
+      simp [txRun, txStep]
+  · rw [finish_ok _ _ _ rfl]
+    apply mk_goal t { greeted := true, sender := none, rcpts := [] }
+    · exact inv_idle _ (by simp [newState]) rfl rfl rfl rfl
+    · simp [eventsFor, txRun, txStep]
+    · exact rel_idle _ true (not_inTx_of _ (by simp [newState])) rfl (by simp [newState])
+
+theorem goal_ehlo (env : Env) (v : Verdicts) (s : Sess) (t : Tx) (l : List Byte) (hI : Inv s) (hR : Rel s t) :
+    StepGoal t (eventsFor .ehlo v (finishStep 0 4 (runFunc env v .ehlo s l)).1)
+      (finishStep 0 4 (runFunc env v .ehlo s l)).2 := by
+  simp only [runFunc, smtpEhlo]
+  split
+  · have hne := err_replies_ne { replies := [], rc := .einval, s := s } 0 4 (by simp) [250] (by simp) (by simp [errReply])
+    apply finish_err_goal _ _ _ t t _ (by simp) hI (Or.inr hR)
+    simp only [eventsFor, if_neg hne]
+    simp [txRun, txStep]
+  · rw [finish_ok _ _ _ rfl]
+    apply mk_goal t { greeted := true, sender := none, rcpts := [] }
+    · exact inv_idle _ (by simp [newState]) rfl rfl rfl rfl
+    · simp [eventsFor, txRun, txStep]
+    · exact rel_idle _ true (not_inTx_of _ (by simp [newState])) rfl (by simp [newState])
+
+end QsmtpModel.Session
+
+namespace QsmtpModel.Session
+open QsmtpModel Spec
+
+theorem goal_starttls (env : Env) (v : Verdicts) (s : Sess) (t : Tx) (l : List Byte) (hI : Inv s) (hR : Rel s t)
+    (hcs : s.comstate = 0x10) :
+    StepGoal t (eventsFor .starttls v (finishStep 1 8 (runFunc env v .starttls s l)).1)
+      (finishStep 1 8 (runFunc env v .starttls s l)).2 := by
+  simp only [runFunc, smtpStarttls]
+  have hnt : ¬ inTx s := not_inTx_of s (by omega)
+  obtain ⟨hm, hr⟩ := hI.idle hnt
+  split
+  · have hne := err_replies_ne { replies := [], rc := .badseq, s := s } 1 8 (by simp) [220] (by simp) (by simp [errReply])
+    apply finish_err_goal _ _ _ t t _ (by simp) hI (Or.inr hR)
+    simp only [eventsFor, if_neg hne]; exact other_run t
+  · split
+    · rename_i code _
+      have hne := err_replies_ne { replies := [code], rc := .other 500, s := s } 1 8 (by simp) [220] (by simp) (by simp [errReply])
+      apply finish_err_goal _ _ _ t t _ (by simp) hI (Or.inr hR)
+      simp only [eventsFor, if_neg hne]; exact other_run t
+    · have hne := err_replies_ne { replies := [220, 454], rc := .edone, s := s } 1 8 (by simp) [220] (by simp) (by simp [errReply])
+      apply finish_err_goal _ _ _ t t _ (by simp) hI (Or.inr hR)
+      simp only [eventsFor, if_neg hne]; exact other_run t
+    · rw [finish_ok _ _ _ rfl]
+      apply mk_goal t { greeted := false, sender := none, rcpts := [] }
+      · exact inv_idle _ (by simp [newState]) hm hr (by simp [hI.good, hr]) (by simp [hI.cnt, hr])
+      · simp [eventsFor, txRun, txStep]
+      · exact rel_idle _ false (not_inTx_of _ (by simp [newState])) hr (by simp [newState])
+
+end QsmtpModel.Session
+
+namespace QsmtpModel.Session
+open QsmtpModel Spec
+
+/-- the relay decision only ever touches the cached relay flag and the client-certificate flag -/
+theorem isAuthenticated_same (env : Env) (s : Sess) :
+    (isAuthenticated env s).2.comstate = s.comstate ∧ (isAuthenticated env s).2.mailfrom = s.mailfrom
+    ∧ (isAuthenticated env s).2.rcpts = s.rcpts ∧ (isAuthenticated env s).2.goodrcpt = s.goodrcpt
+    ∧ (isAuthenticated env s).2.rcptcount = s.rcptcount ∧ (isAuthenticated env s).2.closed = s.closed
+    ∧ (isAuthenticated env s).2.esmtp = s.esmtp := by
+  unfold isAuthenticated
+  split
+  · simp
+  · cases env.relayIp <;> cases env.tlsVerify <;> simp <;> (repeat' split) <;> simp
+
+end QsmtpModel.Session
+
+namespace QsmtpModel.Session
+open QsmtpModel Spec
+
+/-- frame of a function result relative to a state: only the listed transaction fields matter -/
+def Frame (s : Sess) (r : FuncRes) : Prop :=
+  r.s.comstate = s.comstate ∧ r.s.rcpts = s.rcpts ∧ r.s.rcptcount = s.rcptcount ∧ r.s.closed = s.closed
+    ∧ r.stateOverride = none ∧ r.handoff = none
+
+theorem gate_spec (env : Env) (s : Sess) :
+    (submissionGate env s).2.comstate = s.comstate ∧ (submissionGate env s).2.mailfrom = s.mailfrom
+    ∧ (submissionGate env s).2.rcpts = s.rcpts ∧ (submissionGate env s).2.goodrcpt = s.goodrcpt
+    ∧ (submissionGate env s).2.rcptcount = s.rcptcount ∧ (submissionGate env s).2.closed = s.closed
+    ∧ (∀ r, (submissionGate env s).1 = some r → r.s = (submissionGate env s).2 ∧ r.rc = .edone
+          ∧ (r.replies = [421] ∨ r.replies = [550]) ∧ r.stateOverride = none ∧ r.handoff = none) := by
+  have ha := isAuthenticated_same env s
+  unfold submissionGate
+  split
+  · generalize isAuthenticated env s = p at ha
+    obtain ⟨o, s'⟩ := p
+    simp only at ha
+    match o with
+    | none => simp [ha]
+    | some false => simp [ha]
+    | some true => simp [ha]
+  · simp
+
+theorem fromInner_cases (env : Env) (v : MailV) (s : Sess) :
+    Frame s (smtpFromInner env v s) ∧
+    ((smtpFromInner env v s).rc = .ok ∧ (∃ addr sz p ll vl, v = .ok addr sz p ll vl ∧ (smtpFromInner env v s).s.mailfrom = addr)
+        ∧ (smtpFromInner env v s).replies = [250] ∧ (smtpFromInner env v s).s.goodrcpt = 0
+     ∨ (smtpFromInner env v s).rc ≠ .ok ∧ (smtpFromInner env v s).s.mailfrom = s.mailfrom
+        ∧ (smtpFromInner env v s).s.goodrcpt = s.goodrcpt
+        ∧ (smtpFromInner env v s).replies ++ [550] ≠ [250]
+        ∧ (smtpFromInner env v s).replies ++ (errReply (smtpFromInner env v s).rc).toList ≠ [250]) := by
+  unfold smtpFromInner
+  cases v with
+  | noBracket => simp [Frame, errReply]
+  | badAddr => simp [Frame, errReply]
+  | noSuchUser => simp [Frame, errReply]
+  | paramSyntax => simp [Frame, errReply]
+  | paramUnknown => simp only; split <;> simp [Frame, errReply]
+  | ok addr sz p ll vl =>
+    simp only
+    split
+    · simp [Frame, errReply]
+    · split
+      · simp [Frame, errReply]
+      · split
+        · simp [Frame, errReply]
+        · simp [Frame]
+
+end QsmtpModel.Session
+
+namespace QsmtpModel.Session
+open QsmtpModel Spec
+
+theorem events_mail_err (v : Verdicts) (o : Out) (h : o.replies ≠ [250]) : eventsFor .mail v o = [.other] := by
+  simp [eventsFor, h]
+
+theorem goal_mail (env : Env) (v : Verdicts) (s : Sess) (t : Tx) (l : List Byte) (hI : Inv s) (hR : Rel s t)
+    (hcs : s.comstate = 8 ∨ s.comstate = 0x10) :
+    StepGoal t (eventsFor .mail v (finishStep 0 5 (runFunc env v .mail s l)).1)
+      (finishStep 0 5 (runFunc env v .mail s l)).2 := by
+  have hnt : ¬ inTx s := not_inTx_of s (by omega)
+  obtain ⟨hm, hr⟩ := hI.idle hnt
+  obtain ⟨r1, r2, r3⟩ := hR
+  have hs1 : SameTx s { s with mailfrom := [] } := ⟨rfl, by simp [hm], rfl, rfl, rfl⟩
+  have hg := gate_spec env { s with mailfrom := [] }
+  -- an error result whose state is, transaction-wise, the old one
+  have errcase : ∀ r : FuncRes, r.rc ≠ .ok → SameTx s r.s → r.s.closed = s.closed →
+      r.replies ++ [550] ≠ [250] → r.replies ++ (errReply r.rc).toList ≠ [250] →
+      StepGoal t (eventsFor .mail v (finishStep 0 5 r).1) (finishStep 0 5 r).2 := by
+    intro r hrc hs hc h1 h2
+    have hne := err_replies_ne r 0 5 hrc [250] h1 h2
+    rw [events_mail_err v _ hne]
+    exact finish_err_goal _ _ _ t t _ hrc (sameTx_inv _ _ hs hI) (Or.inr (sameTx_rel _ _ t hs ⟨r1, r2, r3⟩)) (other_run t)
+  simp only [runFunc, smtpFrom]
+  split
+  · exact errcase _ (by simp) hs1 rfl (by simp) (by simp [errReply])
+  · split
+    · rename_i r _ hgate
+      obtain ⟨g1, g2, g3, g4, g5, g6, g7⟩ := hg
+      obtain ⟨e1, e2, e3, e4, e5⟩ := g7 r (by rw [hgate])
+      refine errcase r (by rw [e2]; simp) ?_ (by rw [e1, g6]) ?_ ?_
+      · rw [e1]; exact ⟨g1, by rw [g2]; simp [hm], g3, g4, g5⟩
+      · rcases e3 with e3 | e3 <;> simp [e3]
+      · rcases e3 with e3 | e3 <;> simp [e3, e2, errReply]
+    · rename_i s' hgate
+      obtain ⟨g1, g2, g3, g4, g5, g6, _⟩ := hg
+      rw [hgate] at g1 g2 g3 g4 g5 g6
+      simp only at g1 g2 g3 g4 g5 g6
+      obtain ⟨⟨f1, f2, f3, f4, f5, f6⟩, hcase⟩ := fromInner_cases env v.mail s'
+      rcases hcase with ⟨hok, ⟨addr, sz, p, ll, vl, hv, hmf⟩, hrep, hgood⟩ | ⟨hrc, hmf, hgood, h1, h2⟩
+      · rw [finish_ok _ _ _ hok]
+        have hns : newState 0 5 (smtpFromInner env v.mail s') = 0x20 := by simp [newState, f5]
+        rw [hns]
+        apply mk_goal t { t with sender := some addr, rcpts := [] }
+        · constructor
+          · simp
+          · intro h; exact absurd (Or.inl rfl) h
+          · intro _; simp [f2, g3, hr]
+          · simp [hgood, f2, g3, hr]
+          · show (smtpFromInner env v.mail s').s.rcptcount = (smtpFromInner env v.mail s').s.rcpts.length
+            rw [f3, g5, f2, g3, hI.cnt]
+          · intro _; simp [f2, g3, hr]
+        · have hgs : t.greeted = true ∧ t.sender = none := by
+            refine ⟨by rw [r1]; rcases hcs with h | h <;> simp [h], by rw [r2]; simp [hnt]⟩
+          have hev : ∀ o : Out, o.replies = [250] → eventsFor .mail v o = [.mail addr] := by
+            intro o ho; simp only [eventsFor, ho, if_true, hv]
+          rw [hev _ hrep]
+          simp [txRun, txStep, hgs]
+        · refine ⟨?_, ?_, ?_⟩
+          · simp [r1]; rcases hcs with h | h <;> simp [h]
+          · simp [inTx, hmf]
+          · simp [okAddrs, f2, g3, hr]
+      · refine errcase _ hrc ⟨by rw [f1, g1], by rw [hmf, g2]; simp [hm], by rw [f2, g3], by rw [hgood, g4], by rw [f3, g5]⟩
+          (by rw [f4, g6]) h1 h2
+
+end QsmtpModel.Session
+
+namespace QsmtpModel.Session
+open QsmtpModel Spec
+
+theorem refused_run (t : Tx) : t ∈ txRun [t] [.rcptRefused] := neutral_run t _ (by simp [Neutral])
+
+theorem events_rcpt_err (v : Verdicts) (o : Out) (h : o.replies ≠ [250]) : eventsFor .rcpt v o = [.rcptRefused] := by
+  simp [eventsFor, h]
+
+theorem okAddrs_append (s : Sess) (r : Recip) (rs : List Recip) (h : s.rcpts = rs ++ [r]) :
+    okAddrs s = ((rs.filter (·.ok)).map (·.addr)) ++ (if r.ok then [r.addr] else []) := by
+  simp only [okAddrs, h, List.filter_append, List.map_append]
+  cases hr : r.ok <;> simp [hr]
+
+theorem goal_rcptAdd (v : Verdicts) (addr : List Byte) (more : Bool) (f : FilterV) (s : Sess) (t : Tx)
+    (hI : Inv s) (hR : Rel s t) (hcs : s.comstate = 0x20 ∨ s.comstate = 0x40) (hf : f.Wf)
+    (hv : ∀ o : Out, o.replies = [250] → eventsFor .rcpt v o = [.rcpt addr]) :
+    StepGoal t (eventsFor .rcpt v (finishStep 0 6 (rcptAdd addr more f s)).1)
+      (finishStep 0 6 (rcptAdd addr more f s)).2 := by
+  have hin : inTx s := hcs
+  obtain ⟨r1, r2, r3⟩ := hR
+  have r2' : t.sender = some s.mailfrom := by rw [r2]; simp [hin]
+  unfold rcptAdd
+  split
+  · -- text behind the address
+    have hne := err_replies_ne { replies := [], rc := .einval, s := s } 0 6 (by simp) [250] (by simp) (by simp [errReply])
+    rw [events_rcpt_err v _ hne]
+    exact finish_err_goal _ _ _ t t _ (by simp) hI (Or.inr ⟨r1, r2, r3⟩) (refused_run t)
+  · split
+    · -- second recipient of a bounce
+      rename_i hb
+      obtain ⟨hcnt, hmf⟩ := hb
+      have hmf' : s.mailfrom = [] := by simpa using hmf
+      have hne : s.rcpts ≠ [] := by
+        intro h; have := hI.cnt; rw [h] at this; simp at this; omega
+      obtain ⟨r0, rest, hrs⟩ := List.exists_cons_of_ne_nil hne
+      have hc40 : s.comstate = 0x40 := by
+        rcases hcs with h | h
+        · exact absurd (hI.mailOnly h) hne
+        · exact h
+      have htail : ∀ r ∈ rest, r.ok = false := by
+        intro r hr; apply hI.bounceTail hmf'; rw [hrs]; simpa using hr
+      have hfil : (rest.filter (·.ok)) = [] := by
+        rw [List.filter_eq_nil_iff]; intro r hr; simp [htail r hr]
+      have hne2 := err_replies_ne { replies := [550], rc := .ebogus, s := bounceRefused s addr } 0 6
+        (by simp) [250] (by simp) (by simp [errReply])
+      rw [events_rcpt_err v _ hne2]
+      apply finish_err_goal _ _ _ t { t with rcpts := [] } _ (by simp)
+      · -- invariant of the state with the first recipient revoked
+        simp only [bounceRefused, hrs, List.cons_append, revokeFirst]
+        constructor
+        · simp [hc40]
+        · intro h; exact absurd (Or.inr hc40) h
+        · intro h; simp [hc40] at h
+        · simp [hfil]
+        · simp [hI.cnt, hrs]
+        · intro _ r hr
+          simp only [List.drop_succ_cons, List.drop_zero, List.mem_append, List.mem_singleton] at hr
+          rcases hr with hr | rfl
+          · exact htail r hr
+          · rfl
+      · right
+        simp only [bounceRefused, hrs, List.cons_append, revokeFirst]
+        refine ⟨by simp [r1], ?_, ?_⟩
+        · simp [inTx, hc40, r2', hmf']
+        · simp [okAddrs, hfil]
+      · simp only [txRun, txStep, r2', hmf', List.flatMap_cons, List.flatMap_nil, List.append_nil]
+        simp
+    · rename_i hnb
+      have hfirst : s.mailfrom = [] → s.rcpts = [] := by
+        intro hm
+        have : ¬ s.rcptcount > 0 := by
+          intro hc; exact hnb ⟨hc, by simp [hm]⟩
+        have hc0 : s.rcptcount = 0 := by omega
+        have := hI.cnt; rw [hc0] at this
+        exact List.length_eq_zero_iff.mp this.symm
+      split
+      · -- accepted
+        rw [finish_ok _ _ _ rfl]
+        have hns : newState 0 6 { replies := [250], rc := .ok, s := withRcpt s addr true } = 0x40 := by
+          simp [newState]
+        rw [hns, hv _ rfl]
+        simp only [withRcpt, if_true]
+        apply mk_goal t { t with rcpts := t.rcpts ++ [addr] }
+        · constructor
+          · simp
+          · intro h; exact absurd (Or.inr rfl) h
+          · intro h; simp at h
+          · simp [hI.good, List.filter_append]
+          · simp [hI.cnt]
+          · intro hm r hr
+            have := hfirst hm
+            simp [this] at hr
+        · simp only [txRun, txStep, r2', List.flatMap_cons, List.flatMap_nil, List.append_nil]
+          have : ¬ (s.mailfrom = [] ∧ t.rcpts ≠ []) := by
+            intro ⟨hm, hne⟩; apply hne; rw [r3]; simp [okAddrs, hfirst hm]
+          simp [this]
+        · refine ⟨by simp [r1]; rcases hcs with h | h <;> simp [h], by simp [inTx, r2'], ?_⟩
+          simp [okAddrs, r3, List.filter_append]
+      · -- refused by a filter: it stays on the list, not ok
+        rename_i code
+        rw [finish_ok _ _ _ rfl]
+        have hns : newState 0 6 { replies := [code], rc := .ok, s := withRcpt s addr false } = 0x40 := by
+          simp [newState]
+        have hcode : [code] ≠ [250] := by simpa [FilterV.Wf] using hf
+        rw [hns, events_rcpt_err v _ hcode]
+        simp only [withRcpt, Bool.false_eq_true, if_false]
+        refine mk_goal t t _ _ ?inv (refused_run t) ?rel
+        case inv =>
+          constructor
+          · simp
+          · intro h; exact absurd (Or.inr rfl) h
+          · intro h; simp at h
+          · simp [hI.good, List.filter_append]
+          · simp [hI.cnt]
+          · intro hm r hr
+            have := hfirst hm
+            simp [this] at hr
+        case rel =>
+          refine ⟨by simp [r1]; rcases hcs with h | h <;> simp [h], by simp [inTx, r2'], ?_⟩
+          simp [okAddrs, r3, List.filter_append]
+
+end QsmtpModel.Session
+
+namespace QsmtpModel.Session
+open QsmtpModel Spec
+
+theorem rcptEarly_spec (env : Env) (v : RcptV) (s : Sess) :
+    match rcptEarly env v s with
+    | .inl r => r.rc ≠ .ok ∧ SameTx s r.s ∧ r.s.closed = s.closed ∧ r.replies ++ [550] ≠ [250]
+        ∧ r.replies ++ (errReply r.rc).toList ≠ [250]
+    | .inr x => SameTx s x.2.2.2 ∧ x.2.2.2.closed = s.closed
+        ∧ ((∃ e, v = .localUser x.1 e x.2.1 x.2.2.1) ∨ (∃ mx, v = .remote x.1 mx x.2.1 x.2.2.1)) := by
+  have ha := isAuthenticated_same env s
+  unfold rcptEarly
+  cases v with
+  | noBracket => simp [SameTx, errReply]
+  | badAddr => simp [SameTx, errReply]
+  | localUser a e m f =>
+    cases e <;> simp [SameTx, errReply]
+  | remote a mx m f =>
+    simp only
+    generalize isAuthenticated env s = p at ha
+    obtain ⟨o, s'⟩ := p
+    obtain ⟨h1, h2, h3, h4, h5, h6, _⟩ := ha
+    simp only at h1 h2 h3 h4 h5 h6
+    have hs : SameTx s s' := ⟨h1, h2, h3, h4, h5⟩
+    match o with
+    | none => simp [hs, h6, errReply]
+    | some false => simp [hs, h6, errReply]
+    | some true =>
+      cases mx <;> simp [hs, h6, errReply]
+
+theorem goal_rcpt (env : Env) (v : Verdicts) (s : Sess) (t : Tx) (l : List Byte) (hI : Inv s) (hR : Rel s t)
+    (hcs : s.comstate = 0x20 ∨ s.comstate = 0x40) (hw : v.rcpt.Wf) :
+    StepGoal t (eventsFor .rcpt v (finishStep 0 6 (runFunc env v .rcpt s l)).1)
+      (finishStep 0 6 (runFunc env v .rcpt s l)).2 := by
+  have errcase : ∀ r : FuncRes, r.rc ≠ .ok → SameTx s r.s →
+      r.replies ++ [550] ≠ [250] → r.replies ++ (errReply r.rc).toList ≠ [250] →
+      StepGoal t (eventsFor .rcpt v (finishStep 0 6 r).1) (finishStep 0 6 r).2 := by
+    intro r hrc hs h1 h2
+    have hne := err_replies_ne r 0 6 hrc [250] h1 h2
+    rw [events_rcpt_err v _ hne]
+    exact finish_err_goal _ _ _ t t _ hrc (sameTx_inv _ _ hs hI) (Or.inr (sameTx_rel _ _ t hs hR)) (refused_run t)
+  simp only [runFunc, smtpRcpt]
+  split
+  · exact errcase _ (by simp) ⟨rfl, rfl, rfl, rfl, rfl⟩ (by simp) (by simp [errReply])
+  · split
+    · -- too many recipients: 452, but the command "succeeds"
+      rw [finish_ok _ _ _ rfl]
+      have hns : newState 0 6 { replies := [452], rc := .ok, s := s } = 0x40 := by simp [newState]
+      rw [hns, events_rcpt_err v _ (by simp)]
+      obtain ⟨r1, r2, r3⟩ := hR
+      have hin : inTx s := hcs
+      refine mk_goal t t _ _ ?inv (refused_run t) ?rel
+      case inv =>
+        constructor
+        · simp
+        · intro h; exact absurd (Or.inr rfl) h
+        · intro h; simp at h
+        · exact hI.good
+        · exact hI.cnt
+        · exact hI.bounceTail
+      case rel =>
+        refine ⟨by simp [r1]; rcases hcs with h | h <;> simp [h], ?_, r3⟩
+        rw [r2]; simp only [inTx] at hin ⊢; simp [hin]
+    · have hsp := rcptEarly_spec env v.rcpt s
+      split
+      · rename_i r hre
+        rw [hre] at hsp
+        obtain ⟨h1, h2, _, h4, h5⟩ := hsp
+        exact errcase r h1 h2 h4 h5
+      · rename_i x hre
+        rw [hre] at hsp
+        obtain ⟨h1, h2, h3⟩ := hsp
+        have hI' := sameTx_inv _ _ h1 hI
+        have hR' := sameTx_rel _ _ t h1 hR
+        have hcs' : x.2.2.2.comstate = 0x20 ∨ x.2.2.2.comstate = 0x40 := by rw [h1.1]; exact hcs
+        have hf : x.2.2.1.Wf := by
+          rcases h3 with ⟨e, h3⟩ | ⟨mx, h3⟩ <;> (rw [h3] at hw; exact hw)
+        apply goal_rcptAdd v x.1 x.2.1 x.2.2.1 x.2.2.2 t hI' hR' hcs' hf
+        intro o ho
+        rcases h3 with ⟨e, h3⟩ | ⟨mx, h3⟩ <;> simp [eventsFor, ho, h3]
+
+end QsmtpModel.Session
+
+namespace QsmtpModel.Session
+open QsmtpModel Spec
+
+theorem bounce_le_one (s : Sess) (hI : Inv s) (hm : s.mailfrom = []) : (okAddrs s).length ≤ 1 := by
+  have ht := hI.bounceTail hm
+  simp only [okAddrs, List.length_map]
+  cases hr : s.rcpts with
+  | nil => simp
+  | cons r0 rest =>
+    rw [hr] at ht
+    have hfil : rest.filter (·.ok) = [] := by
+      rw [List.filter_eq_nil_iff]; intro r hr'; simp [ht r (by simpa using hr')]
+    simp only [List.filter_cons]
+    split <;> simp [hfil]
+
+theorem events_data_no354 (v : Verdicts) (o : Out) (h : 354 ∉ o.replies) : eventsFor .data v o = [.other] := by
+  simp [eventsFor, h]
+
+theorem err_replies_mem (r : FuncRes) (rowState : Int) (i : Nat) (hrc : r.rc ≠ .ok) (c : Nat) :
+    (c ∈ (finishStep rowState i r).1.replies ↔ c ∈ r.replies ∨ c ∈ (handleError r.rc r.s).1)
+      ∧ (finishStep rowState i r).1.handoff = none := by
+  unfold finishStep
+  rw [if_neg hrc]
+  simp
+
+theorem goal_data (env : Env) (v : Verdicts) (s : Sess) (t : Tx) (l : List Byte) (hI : Inv s) (hR : Rel s t)
+    (hcs : s.comstate = 0x40) :
+    StepGoal t (eventsFor .data v (finishStep 16 7 (runFunc env v .data s l)).1)
+      (finishStep 16 7 (runFunc env v .data s l)).2 := by
+  have hin : inTx s := Or.inr hcs
+  obtain ⟨r1, r2, r3⟩ := hR
+  have r2' : t.sender = some s.mailfrom := by rw [r2]; simp only [inTx] at hin ⊢; simp [hin]
+  -- failing before 354: nothing changes
+  have pre : ∀ code : Nat, code ≠ 354 →
+      StepGoal t (eventsFor .data v (finishStep 16 7 { replies := [code], rc := .edone, s := s }).1)
+        (finishStep 16 7 { replies := [code], rc := .edone, s := s }).2 := by
+    intro code hc
+    have hmem := (err_replies_mem { replies := [code], rc := .edone, s := s } 16 7 (by simp) 354).1
+    have hno : 354 ∉ (finishStep 16 7 { replies := [code], rc := .edone, s := s }).1.replies := by
+      rw [hmem]
+      rcases handleError_spec' .edone s with h | h <;> simp [h, errReply, Ne.symm hc]
+    rw [events_data_no354 v _ hno]
+    exact finish_err_goal _ _ _ t t _ (by simp) hI (Or.inr ⟨r1, r2, r3⟩) (other_run t)
+  simp only [runFunc, smtpData]
+  split
+  · exact pre 554 (by decide)
+  · rename_i hgood
+    have hne : okAddrs s ≠ [] := by
+      intro h
+      apply hgood
+      rw [hI.good]
+      have : ((s.rcpts.filter (·.ok)).map (·.addr)).length = 0 := by
+        unfold okAddrs at h; rw [h]; rfl
+      simpa using this
+    have hfi := freedata_inv s hI
+    have hfn := freedata_not_inTx s hI
+    have hgr : t.greeted = decide ((freedata s).comstate ≠ 1) := by
+      rw [r1]; simp [freedata_cs_one s hI]
+    split
+    · exact pre 451 (by decide)
+    · -- accepted
+      rw [finish_ok _ _ _ rfl]
+      have hah := afterHelo_cases s
+      have hns : ∀ r : FuncRes, r.stateOverride = some (afterHelo s) → newState 16 7 r = afterHelo s := by
+        intro r hr; simp only [newState, hr]; rcases hah with h | h <;> simp [h]
+      rw [hns _ rfl]
+      refine mk_goal t { t with sender := none, rcpts := [] } _ _ ?inv ?run ?rel
+      case inv => exact inv_idle _ (by simp; omega) rfl rfl rfl rfl
+      case run =>
+        have hb : s.mailfrom = [] → (okAddrs s).length ≤ 1 := bounce_le_one s hI
+        have hne' : t.rcpts ≠ [] := by rw [r3]; exact hne
+        simp only [eventsFor, mkHandoff, List.mem_cons, true_or, if_true, txRun, txStep, List.flatMap_cons, List.flatMap_nil,
+          List.append_nil]
+        have h1 : (t.sender ≠ none ∧ t.rcpts ≠ []) := ⟨by rw [r2']; simp, hne'⟩
+        rw [if_pos h1]
+        simp only [List.flatMap_cons, List.flatMap_nil, List.append_nil]
+        have h2 : t.sender = some s.mailfrom ∧ t.rcpts = (s.rcpts.filter (·.ok)).map (·.addr)
+            ∧ (s.mailfrom = [] → ((s.rcpts.filter (·.ok)).map (·.addr)).length ≤ 1) := ⟨r2', r3, hb⟩
+        rw [if_pos h2]
+        simp
+      case rel =>
+        refine rel_idle _ t.greeted ?_ ?_ ?_
+        · exact not_inTx_of _ (by simp; omega)
+        · rfl
+        · simp only [r1, hcs]; rcases hah with h | h <;> simp [h]
+    · -- refused after 354: the transaction is gone
+      rename_i code rc _
+      have hne' : t.rcpts ≠ [] := by rw [r3]; exact hne
+      have hrun : ∀ es : List Event, es = [.dataStarted, .dataFailed] →
+          ({ t with sender := none, rcpts := [] } : Tx) ∈ txRun [t] es := by
+        intro es he; subst he
+        have h1 : (t.sender ≠ none ∧ t.rcpts ≠ []) := ⟨by rw [r2']; simp, hne'⟩
+        simp [txRun, txStep, h1]
+      have h354r : 354 ∈ (refusedRes code rc s).replies := by
+        simp only [refusedRes]; split <;> simp
+      by_cases hrc : rc = .ok
+      · subst hrc
+        rw [finish_ok _ _ _ rfl]
+        have hns : newState 16 7 (refusedRes code .ok s) = 16 := by simp [newState, refusedRes]
+        rw [hns]
+        refine mk_goal t { t with sender := none, rcpts := [] } _ _ ?inv ?run ?rel
+        case inv => exact inv_idle _ (by simp) rfl rfl rfl rfl
+        case run =>
+          apply hrun
+          simp only [eventsFor, h354r, if_true]
+          simp [refusedRes]
+        case rel =>
+          refine rel_idle _ t.greeted ?_ rfl ?_
+          · exact not_inTx_of _ (by simp)
+          · simp [r1, hcs]
+      · have hmem := err_replies_mem (refusedRes code rc s) 16 7 hrc 354
+        have h354 : 354 ∈ (finishStep 16 7 (refusedRes code rc s)).1.replies := by
+          rw [hmem.1]; left; exact h354r
+        apply finish_err_goal _ _ _ t { t with sender := none, rcpts := [] } _ hrc hfi
+        · exact Or.inr (rel_idle _ t.greeted hfn rfl hgr)
+        · apply hrun
+          simp only [eventsFor, h354, if_true, hmem.2]
+
+end QsmtpModel.Session
+
+namespace QsmtpModel.Session
+open QsmtpModel Spec
+
+theorem eventsFor_nil_neutral (f : Gen.Func) (v : Verdicts) : ∀ e ∈ eventsFor f v { replies := [] }, Neutral e :=
+  events_neutral_of_err f v _ (Or.inl rfl)
+
+theorem step_refines (env : Env) (s : Sess) (t : Tx) (inp : Input) (hI : s.closed = true ∨ Inv s)
+    (hR : s.closed = true ∨ Rel s t) (hw : inp.Wf) :
+    StepGoal t (eventsOf inp (step env s inp).1) (step env s inp).2 := by
+  unfold step
+  by_cases hcl : s.closed = true
+  · rw [if_pos hcl]
+    apply closed_goal s t _ hcl
+    unfold eventsOf
+    cases inp with
+    | readErr rc => simp [Neutral]
+    | line l v =>
+      simp only
+      split
+      · simp [Neutral]
+      · exact eventsFor_nil_neutral _ _
+  · rw [if_neg hcl]
+    have hI' : Inv s := by rcases hI with h | h; exact absurd h hcl; exact h
+    have hR' : Rel s t := rel_not_closed s t hR hcl
+    cases inp with
+    | readErr rc => exact errOut_goal rc s t _ hI' hR (by simp [eventsOf, Neutral])
+    | line l v =>
+      simp only [eventsOf]
+      cases hf : findRow l Gen.commands 0 with
+      | none => exact errOut_goal .einval s t _ hI' hR (by simp [Neutral])
+      | some p =>
+        obtain ⟨i, row⟩ := p
+        obtain ⟨j, hj, hi⟩ := findRow_spec l Gen.commands 0 i row hf
+        have hij : i = j := by omega
+        subst hij
+        simp only
+        -- dispatch errors are the same for every row
+        have disp : ∀ rc : Rc, rc = .einval ∨ rc = .e2big ∨ rc = .badseq →
+            StepGoal t (eventsFor row.func v (errOut rc s).1) (errOut rc s).2 := by
+          intro rc hrc
+          exact errOut_goal rc s t _ hI' hR (events_neutral_of_err _ _ _ (errReplies_dispatch rc s hrc hI'))
+        have hcsI := hI'.cs
+        split
+        · rename_i hmask
+          split
+          · exact disp .e2big (by simp)
+          · split
+            · exact disp .einval (by simp)
+            · split
+              · exact disp .einval (by simp)
+              · -- the command function runs
+                rcases commands_get i row hj with ⟨rfl, rfl⟩ | ⟨rfl, rfl⟩ | ⟨rfl, rfl⟩ | ⟨rfl, rfl⟩ | ⟨rfl, rfl⟩
+                  | ⟨rfl, rfl⟩ | ⟨rfl, rfl⟩ | ⟨rfl, rfl⟩ | ⟨rfl, rfl⟩ | ⟨rfl, rfl⟩ | ⟨rfl, rfl⟩ | ⟨rfl, rfl⟩
+                · exact goal_noop env v s t l 0 hI' hR' .noop (Or.inl rfl)
+                · exact goal_quit env v s t l 1
+                · exact goal_rset env v s t l hI' hR'
+                · exact goal_helo env v s t l hI' hR'
+                · exact goal_ehlo env v s t l hI' hR'
+                · refine goal_mail env v s t l hI' hR' ?_
+                  simp only at hmask
+                  rcases hcsI with h | h | h | h | h <;> simp [h] at hmask ⊢
+                · refine goal_rcpt env v s t l hI' hR' ?_ hw
+                  simp only at hmask
+                  rcases hcsI with h | h | h | h | h <;> simp [h] at hmask ⊢
+                · refine goal_data env v s t l hI' hR' ?_
+                  simp only at hmask
+                  rcases hcsI with h | h | h | h | h <;> simp [h] at hmask ⊢
+                · refine goal_starttls env v s t l hI' hR' ?_
+                  simp only at hmask
+                  rcases hcsI with h | h | h | h | h <;> simp [h] at hmask ⊢
+                · exact goal_auth env v s t l 9 hI' hR'
+                · exact goal_noop env v s t l 10 hI' hR' .vrfy (Or.inr rfl)
+                · exact goal_post env v s t l 11 hI' hR'
+        · exact disp .badseq (by simp)
+
+end QsmtpModel.Session
+
+namespace QsmtpModel.Session
+open QsmtpModel Spec
+
+/-- everything an observer sees of a connection -/
+def eventsTrace (env : Env) (s : Sess) : List Input → List Event
+  | [] => []
+  | i :: is => eventsOf i (step env s i).1 ++ eventsTrace env (step env s i).2 is
+
+/-- the state reached after the inputs -/
+def finalState (env : Env) (s : Sess) : List Input → Sess
+  | [] => s
+  | i :: is => finalState env (step env s i).2 is
+
+theorem txRun_append (ts : List Tx) (a b : List Event) : txRun ts (a ++ b) = txRun (txRun ts a) b := by
+  induction a generalizing ts with
+  | nil => rfl
+  | cons e es ih => simp only [List.cons_append, txRun]; exact ih _
+
+theorem txRun_subset (es : List Event) : ∀ (us ts : List Tx), (∀ u ∈ us, u ∈ ts) →
+    ∀ t' ∈ txRun us es, t' ∈ txRun ts es := by
+  induction es with
+  | nil => intro us ts h t' ht'; exact h t' ht'
+  | cons e es ih =>
+    intro us ts h t' ht'
+    simp only [txRun] at ht' ⊢
+    apply ih _ _ _ t' ht'
+    intro u hu
+    simp only [List.mem_flatMap] at hu ⊢
+    obtain ⟨w, hw, hu⟩ := hu
+    exact ⟨w, h w hw, hu⟩
+
+theorem txRun_mono (ts : List Tx) (t t' : Tx) (es : List Event) (ht : t ∈ ts) (h : t' ∈ txRun [t] es) :
+    t' ∈ txRun ts es :=
+  txRun_subset es [t] ts (by intro u hu; simp at hu; subst hu; exact ht) t' h
+
+/-- **Refinement.** Whatever the client sends, what an observer sees is allowed by the transaction
+specification, and the state stays inside the invariant. -/
+theorem run_refines (env : Env) (ins : List Input) (hw : ∀ i ∈ ins, i.Wf) :
+    ∀ (s : Sess) (t : Tx), (s.closed = true ∨ Inv s) → (s.closed = true ∨ Rel s t) →
+      ((finalState env s ins).closed = true ∨ Inv (finalState env s ins))
+      ∧ ∃ t' ∈ txRun [t] (eventsTrace env s ins),
+          ((finalState env s ins).closed = true ∨ Rel (finalState env s ins) t') := by
+  induction ins with
+  | nil => intro s t hI hR; exact ⟨hI, t, by simp [eventsTrace, txRun], hR⟩
+  | cons i is ih =>
+    intro s t hI hR
+    obtain ⟨hI1, t1, ht1, hR1⟩ := step_refines env s t i hI hR (hw i List.mem_cons_self)
+    obtain ⟨hI2, t2, ht2, hR2⟩ := ih (fun x hx => hw x (List.mem_cons_of_mem _ hx)) _ t1 hI1 hR1
+    refine ⟨hI2, t2, ?_, hR2⟩
+    simp only [eventsTrace, txRun_append]
+    exact txRun_mono _ t1 t2 _ ht1 ht2
+
+end QsmtpModel.Session
